@@ -232,6 +232,15 @@ func runReplay(out *hx.Out, file, prop string) {
 				continue
 			}
 			s.step(in)
+		case "METRICS":
+			if s == nil || !open || len(f) < 2 {
+				continue
+			}
+			cnt, _ := strconv.Atoi(f[1])
+			// metricsCase writes its own CASE/END; close the header case first
+			out.End()
+			open = false
+			metricsCase(s, cnt)
 		case "FUZZ":
 			if s == nil || !open || len(f) < 4 {
 				continue
